@@ -909,7 +909,25 @@ def _diversity_case(ctx, cls_name, n, t, preserve, v, div, fam, do_tie=True):
             # (before any definition is built); both gates must follow the contents at THEIR construction time
             t_a = int(div["t_other"])
             d = {"target_state": t_a, "preserve_previous": False}
+            d0 = dict(d)
             g_a = cls(raw, opt_params=d)
+            if d != d0:
+                ctx.fail(key + ":options-dict-modified", f"constructing {cls_name} changed the caller's options dict from {d0} to {d}",
+                         dict(rep, before=str(d0), after=str(d)))
+                return False
+            # the SAME, untouched dict object for another construction (nothing re-assigned in between)
+            g_a2 = cls(raw, opt_params=d)
+            if not _div_check_circuit(ctx, key + f":same-dict-again:t={t_a}", rep, g_a2.definition, list(range(n)), v, t_a, False):
+                return False
+            # ... and with both options away from their defaults
+            d2 = {"target_state": t, "preserve_previous": bool(preserve)}
+            g_p = cls(raw, opt_params=d2)
+            g_p2 = cls(raw, opt_params=d2)
+            if d2 != {"target_state": t, "preserve_previous": bool(preserve)}:
+                ctx.fail(key + ":options-dict-modified", f"constructing {cls_name} changed the caller's options dict to {d2}", rep)
+                return False
+            if not _div_check_circuit(ctx, key + ":same-dict-again:second", rep, g_p2.definition, list(range(n)), v, t, preserve):
+                return False
             d["target_state"] = t
             d["preserve_previous"] = preserve
             g_b = cls(raw, opt_params=d)
@@ -1475,9 +1493,64 @@ def _diversity_run(ctx):
     _diversity_flag_forms(ctx, pr, r)
 
 
+def wide_cases(ctx, r):
+    """Registers wider than the usual sizes (n = 9, 10, 11), where container iteration order / index widths can first go wrong
+    (e.g. a set of control wires holding qubit 8 no longer iterates in ascending order).  State-vector oracle only: the gate on
+    the basis state |t>, t = 0 / random / last, dense vectors and vectors whose multiplexers simplify (product and repeated
+    structure), both classes, with and without preserve (support >= t)."""
+    from qiskit import QuantumCircuit
+    from qiskit.quantum_info import Statevector
+    for n in (9, 10, 11):
+        N = 2 ** n
+        for fam in ("dense", "product-low5", "repeat-top"):
+            if fam == "dense":
+                v = r.normal(size=N) + 1j * r.normal(size=N)
+            elif fam == "product-low5":          # generic on the top qubits (x) product on the 5 lowest: low controls are dropped
+                top = r.normal(size=N // 32) + 1j * r.normal(size=N // 32)
+                low = np.array([1.0 + 0j])
+                for _ in range(5):
+                    low = np.kron(r.normal(size=2) + 1j * r.normal(size=2), low)
+                v = np.kron(top, low)
+            else:                                # independent of the top qubit up to a factor: the top control is dropped
+                half = r.normal(size=N // 2) + 1j * r.normal(size=N // 2)
+                v = np.kron(np.array([0.6, 0.8j]), half)
+            v = v / np.linalg.norm(v)
+            for cls_name in ("ucg", "ucge"):
+                for t in sorted({0, int(r.integers(1, N - 1)), N - 1}):
+                    for preserve in ((False, True) if t not in (0,) and fam == "dense" and n == 9 else (False,)):
+                        w = v
+                        if preserve:
+                            w = v.copy()
+                            w[:t] = 0
+                            if not np.any(w):
+                                continue
+                            w = w / np.linalg.norm(w)
+                        key = f"{cls_name}:wide:{fam}:n={n}:t={t}:pres={int(preserve)}"
+                        rep = {"call": cls_name, "n": n, "t": t, "preserve": preserve, "family": "wide:" + fam,
+                               "how": "tools/props/c12.py wide_cases: gate on |t>, Statevector vs the vector", "vector": vec_payload(w)}
+                        ctx.count(f"boundary:wide-register:n={n}:{fam}")
+                        try:
+                            g = get_class(cls_name)(np.array(w), opt_params={"target_state": int(t), "preserve_previous": bool(preserve)})
+                            qc = QuantumCircuit(n)
+                            for q in range(n):
+                                if (t >> q) & 1:
+                                    qc.x(q)
+                            qc.append(g, range(n))
+                            err = float(np.abs(np.asarray(Statevector(qc).data) - w).max())
+                        except Exception as e:  # noqa: BLE001
+                            ctx.fail(f"{cls_name}:exception:{type(e).__name__}:wide:{fam}:n={n}:pres={int(preserve)}",
+                                     f"construction / simulation raised {e!r}", rep)
+                            continue
+                        if err > 1e-7:
+                            ctx.fail(key, f"the gate maps |t={t}> to a state that differs from the vector by {err:.3e}", dict(rep, observed_err=err))
+                        else:
+                            ctx.ok(key, nontrivial=True)
+
+
 def run(ctx, nmax_tie=None, nmax_or=None, per_t=None):
     r = ctx.nprng()
     regression_probes(ctx)
+    wide_cases(ctx, r)
     entry_forms(ctx)
     nmax_tie = nmax_tie or (4 if ctx.quick else 5)
     nmax_or = nmax_or or (5 if ctx.quick else 6)
